@@ -59,6 +59,7 @@ where
             max_blowup: 8,
             exact: cfg!(debug_assertions),
             max_assertions: 0,
+            long_cycles: false,
         };
         let mut inst = gen_instance(rng, B::SPEC, &gp);
         inst.opts.queries = inst.opts.queries.clamp(2, 12);
